@@ -70,6 +70,52 @@ TEXTS = ["x", "hello world", "a:b", " lead", "  two", "", "é", "日本", "{\"k\
          "data", "id", "0"]
 
 
+HTTP_HEAD = b"HTTP/1.1 200 OK\r\nContent-Type: text/event-stream\r\n"
+
+
+def http_wrap(body, framing, chunk_cuts):
+    """-> (http stream, list of body increments the Respondent hands to the EventSource when it gets the
+    whole stream at once, offset of the body in the stream)"""
+    if framing == "chunked":
+        chunks = [c for c in pieces_of(body, chunk_cuts) if c]
+        wire = b"".join(b"%x\r\n" % len(c) + c + b"\r\n" for c in chunks) + b"0\r\n\r\n"
+        return HTTP_HEAD + b"Transfer-Encoding: chunked\r\n\r\n" + wire, chunks
+    return HTTP_HEAD + b"\r\n" + body, None
+
+
+def run_http(maxline, stream, cuts, framing):
+    """the real Respondent: events of a text/event-stream response received in pieces"""
+    from ioflo.aio.http import httping, clienting
+    old = httping.MAX_LINE_SIZE
+    httping.MAX_LINE_SIZE = maxline
+    try:
+        msg = bytearray()
+        r = clienting.Respondent(msg=msg, method="GET")
+        status = "running"
+        ops = list(pieces_of(stream, cuts)) + ([None] if framing == "close" else [])
+        for op in ops:
+            if op is None:
+                r.close()
+            else:
+                msg.extend(op)
+            try:
+                r.parse()
+            except Exception as ex:
+                if status == "running":
+                    status = "dead:" + type(ex).__name__
+        if r.errored and status == "running":
+            status = "errored"
+        es = r.eventSource
+        if es is None:
+            return ["no-event-source status=%s" % status]
+        out = ["leid=%s retry=%s status=%s" % (ohx(es.leid), "~" if es.retry is None else "%d" % es.retry, status)]
+        for e in r.events:
+            out.append("ev %s %s %s" % (ohx(e["id"]), ohx(e["name"]), ohx(e["data"])))
+        return out
+    finally:
+        httping.MAX_LINE_SIZE = old
+
+
 def gen_event(rng):
     """abstract event -> (lines, id or None, name or None, datas, retry or None)"""
     lines, eid, name, datas, retry = [], None, None, [], None
@@ -137,7 +183,10 @@ def gen_cuts(rng, n, k=None):
     if k is None:
         k = rng.choice([0, 1, 1, 2, 2, 3, 5, 8])
     k = min(k, n + 1)
-    return sorted(rng.sample(range(n + 1), k))
+    cuts = sorted(rng.sample(range(n + 1), k))
+    if cuts and rng.random() < 0.35:      # repeat some cuts: an empty piece is a parse() pass with no new bytes
+        cuts = sorted(cuts + [rng.choice(cuts) for _ in range(rng.choice([1, 1, 2]))])
+    return cuts
 
 
 class CHECK(core.Check):
@@ -154,9 +203,15 @@ class CHECK(core.Check):
             "exhaustive: token sequences over {data:x, data, id:1, event:e, retry:5, :c, CR, LF, CRLF} of length "
             "<= 3 (quick) / <= 4 (thorough) under every single cut, and fixed short streams under every split "
             "into <= 3 pieces; non-trivial = at least one event dispatched and (>= 2 pieces or >= 2 kinds of line end); "
+            "cuts may repeat (an empty piece = a parse() pass with no new bytes); 15% of the cases and a fixed exhaustive set "
+            "carry the stream as a text/event-stream HTTP response (chunked with random chunk boundaries, or read until "
+            "close) through a real clienting.Respondent under random / every single cut and idle passes; "
             "distinct by (stream, cuts)")
     TRUSTED = ["correspondence: httping.EventSource of the working tree (raw.extend + parse per piece) vs the Lean "
                "model (driver engine 'sse'): events, leid, retry, coarse parser status",
+               "event-stream HTTP responses: the events a real clienting.Respondent delivers vs the Lean SSE model fed the "
+               "body increments the Respondent hands to its EventSource (per data chunk / per receive); the HTTP framing "
+               "itself is C29's model, the two Lean models are not composed",
                "CPython bytes.find / bytearray slicing, UTF-8 decoder and int(str); json decoding (dictable=True) "
                "is outside the model",
                "MAX_LINE_SIZE is lowered by assignment to the module global for the long-line cases",
@@ -178,7 +233,8 @@ class CHECK(core.Check):
                   "of a stream written as blocks of field lines are those the SSE field rules prescribe — last id, last "
                   "event name, data lines joined by LF, retry — for every rendering and split (C33_block_dispatch, "
                   "C33_blocks_events, C33_content_any_rendering_any_split); the structural line search used in the model "
-                  "equals the code's raw.find-based search for every buffer (C33_scan_is_find). On the model of the unrepaired parseLine "
+                  "equals the code's raw.find-based search for every buffer (C33_scan_is_find); a parse() pass without new bytes "
+                  "changes nothing (C33_idle_pass). On the model of the unrepaired parseLine "
                   "both invariances fail (C33_unrepaired_split_counterexample, C33_unrepaired_eol_counterexample).")
     LEVEL_NOTE = ("Trusted: Lean kernel; axioms propext, Classical.choice, Quot.sound; the hand transcription of "
                   "parseLine/parseEvents validated by the correspondence runs; CPython's find, UTF-8 decoder, int(); "
@@ -208,7 +264,7 @@ class CHECK(core.Check):
                     if n <= 3 or s[c - 1:c] in (b"\r", b"\n") or s[c:c + 1] in (b"\r", b"\n"):
                         yield self._mk(s, [c])
                 yield self._mk(s, [])
-        fixed = [b"data: a\r\n\r\n", b"data:a\rdata:b\n\nid:1\r\n", b"id: 7\rdata: x\r\r", b"data\ndata\r\n\r",
+        fixed = [b"data: one\r\ndata: two\r\n\r\n", b"data: a\r\n\r\n", b"data:a\rdata:b\n\nid:1\r\n", b"id: 7\rdata: x\r\r", b"data\ndata\r\n\r",
                  b"retry: 10\r\n\ndata: y\n\r\n", b": c\r\rdata: z\r\n\r\n"]
         if tier == "thorough":
             fixed += [b"event: e\rdata: 1\ndata: 2\r\n\r\nid\rdata: q\r\r\n", b"data:\xe6\x97\xa5\r\n\rdata:x\n\n"]
@@ -216,6 +272,18 @@ class CHECK(core.Check):
             for i in range(len(s) + 1):
                 for j in range(i, len(s) + 1):
                     yield self._mk(s, [i, j])
+        # the same events carried by a real HTTP response (chunked / until close) through clienting.Respondent:
+        # every single cut of the HTTP stream, an idle pass at every cut, and everything in one receive
+        body = b"id: 1\ndata: one\r\ndata: two\r\n\r\nretry: 7\rdata: x\n\n"
+        exp = {"events": [["1", "", "one\ntwo"], ["1", "", "x"]]}
+        for framing, ccs in (("chunked", [[5, 17, 30]] + ([[1, 2, 3, 40], []] if tier == "thorough" else [])), ("close", [[]])):
+            for cc in ccs:
+                stream, _ = http_wrap(body, framing, cc)
+                yield self._http_case(None, body=body, expect=exp, framing=framing, cuts=[], chunk_cuts=cc)
+                for k in range(1, len(stream)):
+                    yield self._http_case(None, body=body, expect=exp, framing=framing, cuts=[k], chunk_cuts=cc)
+                    if tier == "thorough" or k % 3 == 0:
+                        yield self._http_case(None, body=body, expect=exp, framing=framing, cuts=[k, k], chunk_cuts=cc)
 
     def _wellformed(self, rng):
         nev = rng.choice([1, 1, 2, 3, 5])
@@ -254,9 +322,30 @@ class CHECK(core.Check):
                 return False
         return True
 
+    def _http_case(self, rng, body=None, expect=None, framing=None, cuts=None, chunk_cuts=None):
+        if body is None:
+            body, expect = self._wellformed(rng)
+            while EOL_RE.split(body)[-1] != b"":      # a complete stream: the response ends after it
+                body, expect = self._wellformed(rng)
+        framing = framing or rng.choice(["chunked", "chunked", "close"])
+        if chunk_cuts is None:
+            chunk_cuts = gen_cuts(rng, len(body), rng.choice([0, 1, 2, 3, 5])) if framing == "chunked" else []
+        stream, _ = http_wrap(body, framing, chunk_cuts)
+        if cuts is None:
+            cuts = gen_cuts(rng, len(stream))
+        c = {"type": "http", "max": 65536, "stream": hx(body), "framing": framing, "chunk_cuts": list(chunk_cuts),
+             "cuts": list(cuts)}
+        if expect is not None:
+            c["expect"] = expect
+        return c
+
     def generate(self, rng, n, tier):
         for i in range(n):
             kind = rng.random()
+            if kind < 0.15:
+                yield self._http_case(rng)
+                continue
+            kind = (kind - 0.15) / 0.85
             if kind < 0.6:
                 stream, expect = self._wellformed(rng)
                 yield self._mk(stream, gen_cuts(rng, len(stream)), expect=expect)
@@ -280,6 +369,8 @@ class CHECK(core.Check):
             stream, expect = self._wellformed(rng)
             pos = [k for k in range(1, len(stream)) if stream[k - 1:k] in b"\r\n" or stream[k:k + 1] in b"\r\n"]
             cuts = sorted(set(rng.sample(pos, min(len(pos), rng.choice([1, 2, 3])))))
+            if cuts and rng.random() < 0.5:
+                cuts = sorted(cuts + [rng.choice(cuts)])
             yield self._mk(stream, cuts, expect=expect)
 
     # ---------------------------------------------------------------- both sides
@@ -293,7 +384,23 @@ class CHECK(core.Check):
             ops.append(p)
         return ops
 
+    def _http_increments(self, case):
+        """what the Respondent hands to its EventSource, call by call"""
+        body = unhx(case["stream"])
+        stream, chunks = http_wrap(body, case["framing"], case["chunk_cuts"])
+        if case["framing"] == "chunked":
+            return stream, chunks                     # one parse() of the EventSource per data chunk
+        off = len(stream) - len(body)
+        incs, a = [], 0
+        for c in list(case["cuts"]) + [len(stream)]:
+            incs.append(stream[max(a, off):max(c, off)])
+            a = c
+        return stream, incs                           # one per receive: the new body bytes
+
     def requests(self, case):
+        if case.get("type") == "http":
+            stream, incs = self._http_increments(case)
+            return ["sse %d %s" % (case["max"], " ".join("f" + hx(i) for i in incs) or "f-")]
         ops = ["c" if o is None else "f" + hx(o) for o in self._ops(case)]
         return ["sse %d %s" % (case["max"], " ".join(ops))]
 
@@ -301,10 +408,25 @@ class CHECK(core.Check):
         return replies[0].split(" | ")
 
     def impl(self, case):
+        if case.get("type") == "http":
+            stream, _ = self._http_increments(case)
+            return run_http(case["max"], stream, case["cuts"], case["framing"])
         return run_impl(case["max"], self._ops(case))
 
     # ---------------------------------------------------------------- property
     def oracle(self, case, out):
+        if case.get("type") == "http":
+            body = unhx(case["stream"])
+            direct = run_impl(case["max"], [body])           # a bare EventSource given the body at once
+            if out != direct:
+                return ("events of the event-stream response (%s, chunks at %r, receives cut at %r) %r differ from the "
+                        "events of its body %r" % (case["framing"], case["chunk_cuts"], case["cuts"], out[:4], direct[:4]))
+            exp = case.get("expect")
+            if exp is not None:
+                want = ["ev %s %s %s" % (ohx(i), ohx(nm), ohx(d)) for i, nm, d in exp["events"]]
+                if out[1:] != want:
+                    return "events differ from the content: got %r want %r" % (out[1:4], want[:3])
+            return None
         if case.get("close") is not None:
             return None                              # the property speaks about receives only
         if out and out[0].startswith("HARNESS-EXC"):
@@ -327,11 +449,16 @@ class CHECK(core.Check):
         return None
 
     def nontrivial(self, case, out):
+        if case.get("type") == "http":
+            return len(out) > 1
         stream = unhx(case["stream"])
         kinds = set(EOL_RE.findall(stream))
         return len(out) > 1 and (len(case["cuts"]) >= 1 or len(kinds) >= 2)
 
     def bucket(self, case, out):
+        if case.get("type") == "http":
+            return "http-%s/chunks%d/pieces%d/%s" % (case["framing"], min(len(case["chunk_cuts"]) + 1, 4),
+                                                     min(len(case["cuts"]) + 1, 4), out[0].split("status=")[-1])
         stream = unhx(case["stream"])
         kinds = set(EOL_RE.findall(stream))
         k = "eol-mixed" if len(kinds) > 1 else "eol-" + {b"\r": "cr", b"\n": "lf", b"\r\n": "crlf"}.get(next(iter(kinds), None), "none")
@@ -341,6 +468,12 @@ class CHECK(core.Check):
                                        "/close" if case.get("close") is not None else "")
 
     def shrink_candidates(self, case):
+        if case.get("type") == "http":
+            for key in ("cuts", "chunk_cuts"):
+                for i in range(len(case[key])):
+                    c = dict(case); c[key] = case[key][:i] + case[key][i + 1:]
+                    yield c
+            return
         stream = unhx(case["stream"])
         cuts = case["cuts"]
         base = {k: v for k, v in case.items() if k not in ("expect", "origin")}
